@@ -7,7 +7,7 @@ CLAIMED = {
         text="Machine-checked proof (Lean 4) about the per-rank range kernel that is re-extracted from "
              "parallel.py on every run: contiguity, exact end points, sizes differing by at most one, disjoint "
              "exact cover and reduce=serial for every process count and every integer range; the dispatch of "
-             "block_distributed_range/list/array is a hand model tied by exact differential runs.",
+             "block_distributed_range/list/array is a hand model tied by exact differential runs. The region bookkeeping (start/finish_parallel_region, work shared only at level one) is a second hand model: properly nested regions restore level and region count, the outer region distributes after a nested one as before (nested_restores, outer_distributes_after_nested), tied by exact comparison of level, region count and sharing after every operation of random nested programs.",
         note="Lean kernel + propext/Classical.choice/Quot.sound; our extractor (Python AST subset) and "
              "correspondence harness; MPI communication itself is not executed (simulated parallel region).",
         technique="Lean 4 theorems over extracted kernel (omega, induction) + exact model/implementation correspondence",
